@@ -105,6 +105,10 @@ func registerExterns(w *World) {
 		c.k(st, term(r, tString))
 		c.k(no, term(s, tString))
 	})
+	w.ext("strings.TrimPrefix", "TrimPrefix(s,p) == (prefixof(p,s) ? s[len(p):] : s)", func(ex *Exec, st *State, c *callCtx) {
+		s, p := c.args[0].T, c.args[1].T
+		c.k(st, term(ite("(str.prefixof "+p+" "+s+")", "(str.substr "+s+" (str.len "+p+") (- (str.len "+s+") (str.len "+p+")))", s), tString))
+	})
 	w.ext("strings.TrimSpace", "TrimSpace(s): s == l ++ r ++ t, l and t white space, r neither starts nor ends with ASCII white space", func(ex *Exec, st *State, c *callCtx) {
 		s := c.args[0].T
 		r := ex.fresh("trimmed", "String")
@@ -433,12 +437,23 @@ func registerExterns(w *World) {
 		st.setRegion("G!rdsrc", arr("Int", "Int"), store(gs, r, c.args[0].T))
 		gr := st.region("G!rdrec", arr("Int", "Int"))
 		st.setRegion("G!rdrec", arr("Int", "Int"), store(gr, r, "0"))
+		gg := st.region("G!rdgood", arr("Int", "Int"))
+		st.setRegion("G!rdgood", arr("Int", "Int"), store(gg, r, "0"))
 		st.setRegion("G!rdlast", "Int", r)
 		st.setRegion("G!rdcount", "Int", "(+ "+st.region("G!rdcount", "Int")+" 1)")
 		c.k(st, term(r, c.fn.Signature.Results().At(0).Type()))
 	})
 	w.ext("(*bufio.Reader).ReadString", bufioDoc, externReadString)
 	w.ext("path/filepath.Join", "filepath.Join: opaque string", externPure)
+	w.iext("io/fs.DirEntry.IsDir", "DirEntry.IsDir(): uninterpreted function of the entry", func(ex *Exec, st *State, c *callCtx) {
+		ex.nilCheckTerm(st, c.args[0].T, c.site)
+		c.k(st, term(sel(st.region("G!dirent_isdir", arr("Int", "Bool")), c.args[0].T), tBool))
+	})
+	w.iext("io/fs.DirEntry.Name", "DirEntry.Name(): uninterpreted function of the entry", func(ex *Exec, st *State, c *callCtx) {
+		ex.nilCheckTerm(st, c.args[0].T, c.site)
+		c.k(st, term(sel(st.region("G!dirent_name", arr("Int", "String")), c.args[0].T), tString))
+	})
+	w.ext("sort.Slice", "sort.Slice(x, less): sorts x in place; afterwards x holds the same elements (same length, every old element present and every new element an old one) and for all i < j: !less(j, i), where less is the caller's closure evaluated on the new contents", externSortSlice)
 	errT := types.Universe.Lookup("error").Type()
 	oneOf := func(ex *Exec, st *State, c *callCtx, prefix string) (string, string) {
 		// (value, err): exactly one is nil; whichever is non-nil is a freshly allocated object
@@ -569,6 +584,10 @@ func externReadString(ex *Exec, st *State, c *callCtx) {
 	recs := st.region("G!rdstream", arr("Int", arr("Int", "String")))
 	st.assume(implies(eq(e, "0"), eq(line, sel(sel(recs, r), k))))
 	st.setRegion("G!rdrec", arr("Int", "Int"), store(nrec, r, ite(eq(e, "0"), "(+ "+k+" 1)", k)))
+	good := st.region("G!rdgood", arr("Int", "Int"))
+	st.setRegion("G!rdgood", arr("Int", "Int"), store(good, r, ite(eq(e, "0"), "(+ "+sel(good, r)+" (str.len "+line+"))", sel(good, r))))
+	// assumption: a reader never delivers 2^62 bytes or more in total (file sizes)
+	st.assume("(<= " + sel(st.region("G!rdgood", arr("Int", "Int")), r) + " 4611686018427387904)")
 	pos := st.region("G!rdpos", arr("Int", "Int"))
 	st.setRegion("G!rdpos", arr("Int", "Int"), store(pos, r, "(+ "+sel(pos, r)+" (str.len "+line+"))"))
 	ge := st.region("G!rdlasterr", arr("Int", "Int"))
@@ -730,3 +749,101 @@ func (ex *Exec) assertAt(st *State, callee string, vars map[string]Val) {
 }
 
 var _ = ssa.NaiveForm
+
+// externSortSlice: assumed contract of sort.Slice over the caller's less closure.
+func externSortSlice(ex *Exec, st *State, c *callCtx) {
+	inner, ok := c.args[0].Meta.(Val)
+	less := c.args[1]
+	if !ok || inner.K != KSlice || less.K != KFunc || less.Fn == nil {
+		panic(subsetErr{"sort.Slice on something other than a slice and a closure literal"})
+	}
+	et := inner.Typ.Underlying().(*types.Slice).Elem()
+	reg, sort := sliceRegion(et)
+	es := scalarSort(et)
+	id, ln := inner.Fs[0].T, inner.Fs[2].T
+	if inner.Fs[1].T != "0" {
+		panic(subsetErr{"sort.Slice on a re-sliced slice"})
+	}
+	a := st.region(reg, sort)
+	oldc := ex.fresh("sort_old", arr("Int", es))
+	st.assume(eq(oldc, sel(a, id)))
+	newc := ex.fresh("sort_new", arr("Int", es))
+	st.setRegion(reg, sort, store(a, id, newc))
+	for k := range st.known {
+		if strings.HasPrefix(k, reg+"|"+id+"|") {
+			delete(st.known, k)
+		}
+	}
+	inb := func(v string) string { return "(and (<= 0 " + v + ") (< " + v + " " + ln + "))" }
+	// same elements: a bijection between new and old positions (Skolem functions perm / inv)
+	perm := ex.fresh("sort_perm", "Int") + "$f"
+	inv := ex.fresh("sort_inv", "Int") + "$f"
+	ex.declareFunRaw(perm, "(Int) Int")
+	ex.declareFunRaw(inv, "(Int) Int")
+	st.assume("(forall ((k!s Int)) (! (=> " + inb("k!s") + " (and " + inb("("+perm+" k!s)") + " (= (select " + newc + " k!s) (select " + oldc + " (" + perm + " k!s))))) :pattern ((select " + newc + " k!s))))")
+	st.assume("(forall ((m!s Int)) (! (=> " + inb("m!s") + " (and " + inb("("+inv+" m!s)") + " (= (select " + newc + " (" + inv + " m!s)) (select " + oldc + " m!s)))) :pattern ((select " + oldc + " m!s))))")
+	// sortedness w.r.t. the closure: evaluate less(j, i) symbolically on the new contents
+	probe := st.clone()
+	probe.assume(inb("i!s"))
+	probe.assume(inb("j!s"))
+	ex.declare("i!s", "Int")
+	ex.declare("j!s", "Int")
+	var results []string
+	npc := len(probe.pc)
+	ndecl := len(ex.declOrder)
+	var extra [][]string
+	ex.callFn(probe, "sort.Slice:less", less.Fn, []Val{term("j!s", tInt), term("i!s", tInt)}, less.Binds, func(s2 *State, r Val) {
+		results = append(results, ex.asTerm(r))
+		extra = append(extra, append([]string(nil), s2.pc[npc:]...))
+	})
+	if len(results) != 1 {
+		panic(subsetErr{"sort.Slice: the less closure has more than one path"})
+	}
+	// values created while evaluating the closure (results of contract calls, ...) depend on (i, j): turn the fresh
+	// constants into Skolem functions of the two indices
+	body := results[0]
+	facts := strings.Join(extra[0], " ")
+	for _, name := range ex.declOrder[ndecl:] {
+		if !strings.Contains(body, name) && !strings.Contains(facts, name) {
+			continue
+		}
+		fname := name + "$f"
+		ex.declareFunRaw(fname, "(Int Int) "+ex.decls[name])
+		app := "(" + fname + " i!s j!s)"
+		body = replaceSymbol(body, name, app)
+		facts = replaceSymbol(facts, name, app)
+	}
+	if facts != "" {
+		st.assume("(forall ((i!s Int) (j!s Int)) (=> (and " + inb("i!s") + " " + inb("j!s") + ") (and " + facts + ")))")
+	}
+	st.assume("(forall ((i!s Int) (j!s Int)) (=> (and " + inb("i!s") + " " + inb("j!s") + " (< i!s j!s)) (not " + body + ")))")
+	c.k(st, Val{K: KUnit})
+}
+
+// replaceSymbol replaces whole-symbol occurrences of name in an SMT term.
+func replaceSymbol(t, name, by string) string {
+	var b strings.Builder
+	i := 0
+	isSym := func(c byte) bool {
+		return c != '(' && c != ')' && c != ' ' && c != '\n' && c != '"'
+	}
+	for i < len(t) {
+		j := strings.Index(t[i:], name)
+		if j < 0 {
+			b.WriteString(t[i:])
+			break
+		}
+		j += i
+		end := j + len(name)
+		okL := j == 0 || !isSym(t[j-1])
+		okR := end >= len(t) || !isSym(t[end])
+		b.WriteString(t[i:j])
+		if okL && okR {
+			b.WriteString(by)
+		} else {
+			b.WriteString(name)
+		}
+		i = end
+	}
+	return b.String()
+}
